@@ -307,6 +307,9 @@ func (n *NodeGroup) DeleteNodes(nodes ...*v1.Node) error {
 		if err != nil {
 			return fmt.Errorf("failed to terminate instance. err: %v", err)
 		}
+		// the termination decrements the desired capacity on the AWS side; keep the cached
+		// value in step so later calls in the same run work from the real target size
+		n.asg.DesiredCapacity = awsapi.Int64(n.TargetSize() - 1)
 		log.Debug(*result.Activity.Description)
 	}
 
